@@ -51,6 +51,8 @@ class Ref:
             return v
         if op == "tup":
             return tuple(self.lookup(n, chain) for n in e[1])
+        if op == "lstn":
+            return [self.lookup(e[1], chain), e[2]]
         if op == "lit":
             return _fresh(e[1])
         if op == "ne":
